@@ -366,7 +366,7 @@ M("c17-method-unreachable", ["C17"], VM,
   "                \"reverse\",\n                \"includes\",\n                \"sort\",\n            ]\n            if key_str in array_methods:", "                \"reverse\",\n                \"sort\",\n            ]\n            if key_str in array_methods:",
   [("C17", "C17-R1", "_make_array_method")])
 M("c17-subarray-drops-offset", ["C17"], VM,
-  "                result._byte_offset = arr._byte_offset + begin * arr._element_size\n", "",
+  "            result._byte_offset = arr._byte_offset + begin * arr._element_size\n", "",
   [("C17", "C17-R7", "subarray_fn")])
 M("c18-new-unguarded-int", ["C18", "C04"], VM,
   "        def valueOf(*args):\n            return n\n", "        def valueOf(*args):\n            return n\n\n        def toInteger(*args):\n            return int(n)\n",
@@ -1117,3 +1117,15 @@ M("c20-search-restore-skipped", ["C20"], VM,
   "                result = regex_internal.exec(s)\n                regex_internal.lastIndex = saved\n                return result.index if result else -1\n",
   "                result = regex_internal.exec(s)\n                if result is None:\n                    return -1\n                regex_internal.lastIndex = saved\n                return result.index\n",
   [("C20", "C20-R10", "search")], note="the no-match exit of search returns before lastIndex is put back")
+M("c17-splice-no-arguments-deletes-all", ["C17"], VM,
+  "                delete_count = (\n                    0  # the number of arguments decides: splice() removes nothing\n                )\n", "                delete_count = len(arr._elements) - start\n",
+  [("C17", "C17-R23", "splice_fn")], note="fix 3e4f355 reverted")
+M("c17-subarray-copy-without-buffer", ["C17"], VM,
+  "            result._buffer = arr.ensure_buffer()\n", "            result._buffer = arr._buffer\n",
+  [("C17", "C17-R21", "subarray_fn")], note="fix a314334 reverted: a subarray of an array without a buffer is a copy")
+M("c17-subarray-buffer-conditionally", ["C17"], VM,
+  "            result._buffer = arr.ensure_buffer()\n            result._byte_offset = arr._byte_offset + begin * arr._element_size\n", "            if arr._buffer is not None:\n                result._buffer = arr._buffer\n                result._byte_offset = arr._byte_offset + begin * arr._element_size\n",
+  [("C17", "C17-R21", "subarray_fn")], note="the buffer handed on only when there is one (the old shape)")
+M("c17-buffer-remainder-ignored", ["C17"], CX,
+  "                    if (buffer.byteLength - byte_offset) % element_size:\n", "                    if False:\n",
+  [("C17", "C17-R22", "constructor_fn")], note="fix 2188f84 reverted")
